@@ -49,6 +49,7 @@ def straight_line_check():
 
 
 def make(z):
+    z = pm.typed(z)
     return {2: sp.Line, 3: sp.QuadraticBezier, 4: sp.CubicBezier}[len(z)](*z)
 
 
